@@ -32,6 +32,15 @@ def run(ctx):
     C.check_reader_totality(ctx, P)
     C.check_serialize_total(ctx, P)
     C.check_reader_rejections(ctx, P)
+    # "every value ... encodes": the writers are total - no abort-capable site (an assertion on the value being written,
+    # an index, an unwrap) is reachable from the encoders that is not discharged.  The identity point and the zero scalar
+    # are values of these types (Default returns them, an aggregate can cancel to them).
+    import re as _re
+    from . import aborts as A_
+
+    wr = sorted(k for k, f in P.fns.items() if not f.from_expansion and (_re.match(r"^(scalar|signature|public_key|public_key_share|secret_key_share)::serialize$", k) or _re.match(r"^<Vec<u8> as From<&", k) or (f.impl_trait == "Serialize" and f.name == "serialize") or (f.impl_trait == "BlsSerde" and f.name.startswith("serialize_")) or (f.impl_trait == "Display" and f.name == "fmt") or _re.search(r"::to_(be|le)_bytes$", k)))
+    ctx.floor("E8", "encoder entry points", len(wr), 50)
+    A_.check_aborts(ctx, "E8", P, wr, scope="C15")
     from . import guardrules as R_
 
     R_.check_scalar_importer_rejects(ctx, "E4.import-total", P)
